@@ -123,6 +123,64 @@ theorem lyds_run_ok (ops : List (RbOp α)) : ∀ (st : Lyds α × List α), Lyds
 
 end
 
+/-! ## `lyds_split` -/
+
+theorem eraseIdx_iter (A : List α) : ∀ (k : Nat) (B : List α),
+    (List.replicate k A.length).foldl (fun l j => l.eraseIdx j) (A ++ B) = A ++ B.drop k
+  | 0, B => by simp
+  | k + 1, [] => by
+    simp only [List.replicate_succ, List.foldl_cons, List.append_nil, List.drop_nil]
+    rw [List.eraseIdx_of_length_le (Nat.le_refl _)]
+    have := eraseIdx_iter A k []
+    simpa using this
+  | k + 1, b :: B => by
+    simp only [List.replicate_succ, List.foldl_cons]
+    rw [List.eraseIdx_append_of_length_le (Nat.le_refl _)]
+    simp only [Nat.sub_self, List.eraseIdx_cons_zero, List.drop_succ_cons]
+    exact eraseIdx_iter A k B
+
+theorem remove_iter_ok (i : Nat) : ∀ (k : Nat) (t : T α), IsRB t →
+    IsRB ((List.replicate k i).foldl (fun t j => Rb.remove j t) t) ∧
+    inorder ((List.replicate k i).foldl (fun t j => Rb.remove j t) t) =
+      (List.replicate k i).foldl (fun l j => l.eraseIdx j) (inorder t)
+  | 0, t, h => ⟨h, rfl⟩
+  | k + 1, t, h => by
+    simp only [List.replicate_succ, List.foldl_cons]
+    have := remove_iter_ok i k (Rb.remove i t) (remove_isRB i t h)
+    rw [inorder_remove] at this
+    exact this
+
+/-- `lyd_unlink_siblings` from the `i`-th instance on: what stays behind is the first `i` instances, with a tree that lists
+    exactly them -/
+theorem lyds_split_ok (s : Lyds α) (l : List α) (i : Nat) (h : LydsOk s l) : LydsOk (s.split i) (l.take i) := by
+  obtain ⟨hn, hrb, ht⟩ := h
+  unfold Lyds.split
+  by_cases h0 : i = 0
+  · subst h0; simp only [if_true, List.take_zero]
+    exact ⟨rfl, isRB_nil, Or.inl ⟨rfl, Nat.zero_le _⟩⟩
+  · simp only [h0, if_false]
+    by_cases h1 : s.n ≤ i
+    · simp only [h1, if_true]
+      rw [List.take_of_length_le (by omega)]
+      exact ⟨hn, hrb, ht⟩
+    · simp only [h1, if_false]
+      have hin : inorder s.tree = l := by
+        rcases ht with ⟨_, hle⟩ | hin
+        · omega
+        · exact hin
+      obtain ⟨g1, g2⟩ := remove_iter_ok i (s.n - i) s.tree hrb
+      have hsplit : l = l.take i ++ l.drop i := (List.take_append_drop i l).symm
+      have hlen : (l.take i).length = i := by rw [List.length_take]; omega
+      have key : (List.replicate (s.n - i) i).foldl (fun l j => l.eraseIdx j) l = l.take i := by
+        have := eraseIdx_iter (l.take i) (s.n - i) (l.drop i)
+        rw [hlen, ← hsplit] at this
+        rw [this, List.drop_drop]
+        have : l.drop (i + (s.n - i)) = [] := List.drop_eq_nil_of_le (by omega)
+        simp [this]
+      refine ⟨by simp [hlen], g1, Or.inr ?_⟩
+      simp only
+      rw [g2, hin, key]
+
 end LyModel.Sib.Rb
 
 namespace LyModel.Sib
